@@ -409,6 +409,52 @@ def gen_dense_baseline(rng):
     return bytes(out)
 
 
+def gen_lossless_sub(rng):
+    """hand-made SOF3 stream with NON-unit sampling factors (no encoder writes these): predictor 1, Huffman table
+    "0" -> category 0, "10" -> category 1; every real sample has difference 0, every dummy sample of a partial MCU has
+    difference +1, so every output sample must equal 2^(P-1) -- any dummy difference leaking into a real position
+    (row too short, wrong pointer) changes the output.  Widths around the allocator's 16-sample row padding."""
+    layouts = [[(3, 2), (1, 1)], [(3, 1), (1, 1), (1, 1)], [(4, 1), (2, 1), (1, 1)], [(2, 2), (1, 1), (1, 1)], [(3, 3), (1, 1)],
+               [(2, 4), (1, 2)], [(1, 1), (3, 2)], [(4, 2), (1, 1)], [(3, 1), (3, 1), (1, 1)], [(2, 1), (1, 1)], [(4, 1), (4, 1)]]
+    comps = rng.choice(layouts)
+    mh, mv = max(c[0] for c in comps), max(c[1] for c in comps)
+    W = rng.choice([16, 32, 48, 64, 80, 96, 15, 17, 31, 33, 1, 2, 3, 5, 7, 47, rng.range(1, 100)])
+    Hh = rng.choice([1, 2, 3, 4, 5, 7, rng.range(1, 12)])
+    P = rng.choice([8, 8, 8, 4, 2, 7])
+    ids = [1, 2, 3][:len(comps)] if len(comps) == 3 else [10 + i for i in range(len(comps))]
+    out = bytearray(b"\xff\xd8")
+    out += seg(0xC3, bytes([P, Hh >> 8, Hh & 255, W >> 8, W & 255, len(comps)]) + b"".join(bytes([ids[i], (c[0] << 4) | c[1], 0]) for i, c in enumerate(comps)))
+    out += seg(0xC4, bytes([0x00, 1, 1] + [0] * 14 + [0, 1]))
+    out += seg(0xDA, bytes([len(comps)]) + b"".join(bytes([ids[i], 0x00]) for i in range(len(comps))) + bytes([1, 0, 0]))
+    dru = lambda a, b: (a + b - 1) // b
+    bw = BitW()
+    for my in range(dru(Hh, mv)):
+        for mx in range(dru(W, mh)):
+            for (h, v) in comps:
+                wib, hib = dru(W * h, mh), dru(Hh * v, mv)
+                for y in range(v):
+                    for x in range(h):
+                        if mx * h + x < wib and my * v + y < hib:
+                            bw.put(0, 1)
+                        else:
+                            bw.put(0b101, 3)
+    out += bw.flush() + b"\xff\xd9"
+    return bytes(out), 1 << (P - 1)
+
+
+def many_scans(rng, s, segs, total):
+    """legal-looking progressive stream with the last scan repeated until it has `total` scans"""
+    sos = [i for i, g in enumerate(segs) if g[1] == 0xDA]
+    if not sos:
+        return s
+    i = sos[-1]
+    start = segs[i][0]
+    end = segs[i + 1][0] + segs[i + 1][2] if i + 1 < len(segs) and segs[i + 1][1] == -1 else segs[i][0] + segs[i][2]
+    scan = s[start:end]
+    k = max(0, total - len(sos))
+    return s[:end] + scan * k + s[end:]
+
+
 def gen_prog_case(rng):
     """one block through decode_mcu_AC_first / decode_mcu_AC_refine: bands 1 <= Ss <= Se <= 63 with boundary
     values, runs that overshoot Se, EOB runs, blocks with non-zero history"""
@@ -832,6 +878,12 @@ def make_big_seeds(ctx, rng, exe):
     return out or [b"\xff\xd8\xff\xd9"]
 
 
+def make_extra_seeds(ctx, rng, exe, tmpl):
+    res = run_lines(ctx, exe, [l % rng.below(1000) for l in tmpl], "seed generation")
+    out = [bytes.fromhex(r[4:]) for r in res if r and r.startswith("jpg ")]
+    return out or [b"\xff\xd8\xff\xd9"]
+
+
 def dec_line(rng, i, data):
     kind = [1, 1, 2, 3, 4, 5, 1, 0][i % 8]
     a, b, c, d = rng.below(1 << 12), rng.below(1 << 10), rng.below(32), rng.below(100000)
@@ -943,8 +995,31 @@ def run(ctx):
         if progs:
             s2, tag, segs = progs[(ctx.seed + j) % len(progs)]
             streams.extend(progressive_cuts(rng, s2, segs))
+    # arithmetic-coded streams (sequential + progressive, with restarts): every Td/Ta nibble of every SOS replaced
+    # (don't-care fields of refinement scans included)
+    ari = make_extra_seeds(ctx, rng, exe, ["mk 4 8 2 24 24 1 0 %d 1 0", "mk 4 8 3 64 64 2 0 %d 1 0", "mk 3 8 2 24 20 1 0 %d 1 0",
+                                           "mk 4 8 0 17 9 1 0 %d 1 0", "mk 4 12 3 16 16 1 0 %d 1 0", "mk 3 8 3 16 16 3 0 %d 1 0"])
+    for j in range(ctx.n(120, 2400)):
+        b = bytearray(ari[j % len(ari)])
+        for (o, m, n) in segments(bytes(b)):
+            if m == 0xDA and n >= 8:
+                ns = b[o + 4]
+                for q in range(ns):
+                    if rng.chance(2, 3):
+                        b[o + 6 + 2 * q] = rng.choice([0x10, 0x01, 0x11, 0x22, 0xF0, 0x0F, 0xFF, 0x35, rng.below(256)])
+        streams.append((bytes(b), "arith-tdta"))
+    # many-scan progressive streams, 1 / 2 / many iMCU rows high: the scan limit must stop EVERY entry point
+    lim = make_extra_seeds(ctx, rng, exe, ["mk 2 8 0 64 8 0 0 %d 1 0", "mk 2 8 0 64 16 0 0 %d 1 0", "mk 2 8 2 64 16 0 0 %d 1 0",
+                                           "mk 2 8 0 40 40 0 0 %d 1 0", "mk 4 8 0 64 8 0 0 %d 1 0", "mk 2 8 3 48 8 0 0 %d 1 0", "mk 2 12 0 32 8 0 0 %d 1 0"])
+    for j in range(ctx.n(21, 210)):
+        b = lim[j % len(lim)]
+        streams.append((many_scans(rng, b, segments(b), rng.choice([12, 20, 40])), "scanlimit"))
     for (s, kind) in streams:
         cases.append(("hdr " + s.hex(), kind))
+    # crafted lossless streams with non-unit sampling factors: every sample must come out as 2^(P-1)
+    for j in range(ctx.n(250, 5000)):
+        b, exp = gen_lossless_sub(rng)
+        cases.append(("ll " + b.hex(), "lossless-sub:%d" % exp))
     seeds8 = [s for s, tag in seeds if tag in ("p0", "p2", "p3", "p4") and b"\xff\xc0\x00" in s or tag in ("p2", "p3", "p4") and (b"\xff\xc2\x00\x11\x08" in s or b"\xff\xc2\x00\x0b\x08" in s or b"\xff\xc9\x00\x11\x08" in s or b"\xff\xca\x00\x11\x08" in s)]
     if not seeds8:
         seeds8 = [s for s, tag in seeds if tag == "p0"]
@@ -986,6 +1061,8 @@ def run_cases(ctx, drv, exe, blk, cases, oracle_every=1):
     hist_cases = [(l, k) for (l, k) in cases if l.startswith("hist ")]
     crop_cases = [(l, k) for (l, k) in cases if l.startswith("crop ")]
     bq_cases = [(l, k) for (l, k) in cases if l.startswith("bq ")]
+    ll_cases = [(l, k) for (l, k) in cases if l.startswith("ll ")]
+    must_fail = set()
 
     # ---- model side
     mlines = None
@@ -1038,6 +1115,14 @@ def run_cases(ctx, drv, exe, blk, cases, oracle_every=1):
             data = bytes.fromhex(line[4:].strip()) if len(line) > 4 else b""
             dec_lines.append("dec 0 0 0 0 0 " + data.hex())
             dec_lines.append(dec_line(rng, i, data))
+            if kind == "scanlimit":               # more scans than TJPARAM_SCANLIMIT / the monitor's limit: every entry point must stop
+                for dl in ("dec 1 0 0 0 0 ", "dec 3 0 0 0 0 ", "dec 3 5 32 0 0 ", "dec 5 0 0 0 0 ", "dec 2 0 0 0 0 "):
+                    dec_lines.append(dl + data.hex())
+                    must_fail.add(dl + data.hex())
+            if kind == "arith-tdta":
+                dec_lines.append("dec 3 0 0 0 0 " + data.hex())
+                dec_lines.append("dec 5 64 0 0 0 " + data.hex())
+                dec_lines.append("dec 1 0 0 0 0 " + data.hex())
             if kind.startswith("prog-"):          # block smoothing on: scan-line loop, buffered-image mode, TurboJPEG
                 dec_lines.append("dec 5 64 0 0 0 " + data.hex())
                 dec_lines.append("dec 4 64 0 0 0 " + data.hex())
@@ -1048,7 +1133,19 @@ def run_cases(ctx, drv, exe, blk, cases, oracle_every=1):
                 dec_lines.append("dec 5 0 0 0 0 " + data.hex())
     dres = run_lines(ctx, exe, dec_lines, "decode API under options")
     produced = 0
+    enforced = 0
     for line, res in zip(dec_lines, dres):
+        if line in must_fail and res:
+            kvm = dict(p.split("=", 1) for p in res.split()[1:] if "=" in p)
+            k = kvm.get("k")
+            ok_end = (k in ("1", "2") and kvm.get("done") == "1" and kvm.get("hdr") in ("0", "-1")) or \
+                     (k == "3" and kvm.get("rc") == "0") or (k == "5" and kvm.get("err") == "0,0")
+            if ok_end:
+                ctx.violation("a stream with more scans than the configured scan limit (%d) was processed to the end: the limit is not "
+                              "enforced through this entry point: %s" % (SCANLIMIT, res[:300]),
+                              {"line": line, "result": res, "stream_hex": line.split()[-1]}, signature="scan-limit-not-enforced:k%s" % k)
+            else:
+                enforced += 1
         nbytes = len(line.split()[-1]) // 2 if len(line.split()) > 6 else 0
         judge_dec(ctx, line, res, nbytes)
         if res and ("done=1" in res or re.search(r"rows=[1-9]", res)):
@@ -1066,6 +1163,27 @@ def run_cases(ctx, drv, exe, blk, cases, oracle_every=1):
             ctx.count("hist", 1, (res or "")[:120])
         ctx.cov["history_cases"] = len(hist_cases)
         ctx.cov["history_cases_second_stream_equal_to_fresh_object"] = nsame
+
+    # ---- crafted lossless streams with sampling factors: constant output by construction
+    if ll_cases:
+        lres = run_lines(ctx, exe, [l for l, _ in ll_cases], "lossless decode with sampling factors")
+        lok = 0
+        for (line, kind), res in zip(ll_cases, lres):
+            if res is None:
+                continue
+            exp = kind.split(":")[1]
+            if res.startswith("ll ok"):
+                kvl = dict(p.split("=", 1) for p in res.split()[2:] if "=" in p)
+                if kvl.get("min") != exp or kvl.get("max") != exp:
+                    ctx.violation("lossless stream whose samples are all %s by construction (difference 0 everywhere, +1 only on the dummy "
+                                  "samples of partial MCUs) decoded to values %s..%s: dummy differences leaked into real samples: %s" % (
+                                      exp, kvl.get("min"), kvl.get("max"), res[:200]),
+                                  {"line": line, "result": res, "stream_hex": line.split()[-1]}, signature="lossless-dummy-sample-leak")
+                else:
+                    lok += 1
+            ctx.count("lossless-sub", 1, res[:60])
+        ctx.cov["lossless_sampling_cases"] = len(ll_cases)
+        ctx.cov["lossless_sampling_cases_constant_output"] = lok
 
     # ---- crop sweeps and buffered-image quantisation histories
     if crop_cases:
@@ -1142,6 +1260,7 @@ def run_cases(ctx, drv, exe, blk, cases, oracle_every=1):
     ctx.cov["streams_accepted_by_impl"] = accepted
     ctx.cov["implementation_verdicts"] = verdicts
     ctx.cov["oracle_runs"] = len(dec_lines)
+    ctx.cov["scan_limit_cases_stopped"] = enforced
     ctx.cov["oracle_runs_with_output_produced"] = produced
     ctx.cov["block_cases_with_k_beyond_63"] = over
     ctx.cov["fast_path_block_cases"] = fastpath
